@@ -166,10 +166,11 @@ def run(chk):
         "pieces, URLs) and <= 4/5 out of 14 core fragments: never raises, yields are non-empty stripped substrings in order with a "
         "protocol and accepted by is_url."
     )
-    f1, t1 = grid.run(chk, URL_GRID, None, evaluate_is_url)
+    f1, t1 = grid.run(chk, URL_GRID, None, evaluate_is_url,
+                      shrink=(lambda case: dict(URL_GRID.wit(case), kind="url"), simplify, fails_fn))
     n1 = chk.cov["states"]
     g = TEXT_Q if quick else TEXT_T
-    f2, t2 = grid.run(chk, g, None, evaluate_text)
+    f2, t2 = grid.run(chk, g, None, evaluate_text, shrink=(lambda case: dict(g.wit(case), kind="text"), simplify, fails_fn))
     n2 = chk.cov["states"] - n1
     chk.add("transitions", n1 * 32 + n2 * 2)
     chk.add("evaluations", n1 * 16 + n2)
@@ -178,6 +179,3 @@ def run(chk):
     for c in ("text.total", "text.nonempty", "text.stripped", "text.in-order", "text.protocol", "text.is_url"):
         chk.clause(PROP + "." + c, checked=n2, nontrivial=t2.get("yields-several", 0))
     chk.cov["bounds"] = {"is_url d": "full", "text k": g.slots[0][1].k, "text core_k": g.slots[0][1].core_k}
-    allf = [(c, dict(URL_GRID.wit(case), kind="url"), e, gg) for (c, case, e, gg) in f1]
-    allf += [(c, dict(g.wit(case), kind="text"), e, gg) for (c, case, e, gg) in f2]
-    core.reduce_failures(chk, allf, simplify, fails_fn)
